@@ -374,6 +374,22 @@ def run(repo, run, tier):
     from checks import c14
     from sa.report import import_rules
     import_rules(run, R5, c14, repo, {"C14.R8"}, only=lambda c: c.startswith("ast.NamespaceNode"))
+    # ... and the default name templates of enumerations and enumerators carry that prefix (C08.R2)
+    from checks import c08
+    import_rules(run, R5, c08, repo, {"C08.R2"}, only=lambda c: "enum" in c)
+    # a printer hands the text of a constant on as it is: `int(text)` reads `010` as ten
+    for q_, fn_ in sorted(tm.functions().items()):
+        if not q_.endswith(".visit_Constant"):
+            continue
+        bad = []
+        for c_ in ast.walk(fn_):
+            if isinstance(c_, ast.Call) and pyflow.is_name(c_.func, "int") and len(c_.args) == 1 and not c_.keywords:
+                conds = " ".join(t_ for t_, pol_ in pyflow.path_atoms(c_, stop=fn_, seg=ast.unparse))
+                if "'0'" not in conds and '"0"' not in conds:
+                    bad.append(ast.unparse(c_))
+        run.check(R5, "todict.%s:verbatim" % q_, not bad,
+                  "`%s` converts the text of a constant as a decimal number: a bare octal enumerator value (`GROUP = 010`) becomes 10 "
+                  "in the C header and the Fortran module, C++ has 8" % (bad[0] if bad else ""), tm.loc(fn_))
     # Fortran has no C-style octal literals: when an expression is rewritten for Fortran they are printed in decimal
     pvc = [fn for q_, fn in tm.functions().items() if q_ == "PrintNodeIdentifier.visit_Constant"]
     okf = bool(pvc) and pat.has(pvc[0], "int(MV_V, 8)") and any("F_" in tm.seg(t) for n_ in ast.walk(pvc[0]) if isinstance(n_, ast.If)
